@@ -15,7 +15,11 @@ TECH2 = " + kernel tables regenerated from the source by a translator and re-pro
 CLAIMS = {
     'C01': ("Lean proof that the model's update path refines a dense array for every history/configuration "
             "(C01.history_refines, updateCore_refines, never_written_reads_sentinel, clear_spec); correspondence of the "
-            "model with /repo on generated histories incl. every read path and a malformed stream", NOTE, TECH, "6 C01"),
+            "model with /repo on generated histories incl. every read path and a malformed stream; HISTORY LEVEL: every history of "
+            "write / read lines refines a dense array interpreter (reachable_dense), and — Props/DenseAll — every history "
+            "over 22 operations (writes, scalar operators, masks, conversions, bit operations, boolean algebra, multi-map "
+            "operations, upgrade, degrade, fracdet and the accounting observers) refines ONE coverage-aware dense "
+            "interpreter, unconditionally (reachable_dense_all)", NOTE, TECH, "6 C01 / AB.10"),
     'C02': ("Lean proof that valid_pixels / n_valid / coverage_map / valid_pixels_single_covpix / fracdet agree with the "
             "dense valid set for every layout-invariant state and that the n_valid cache is coherent; GLOBAL: along every "
             "protocol history over the whole API model the cached count is never stale and n_valid answers the number of "
